@@ -1,9 +1,10 @@
 (* Extraction of the C13 model and oracle for the correspondence check (ExtrOcamlBasic only). *)
 From Coq Require Import Extraction ExtrOcamlBasic.
 From Coq Require Import List NArith.
-From DuneV Require Import C13_Model C13_Spec.
+From DuneV Require Import Params_gen C13_Model C13_Spec.
 Extraction Language OCaml.
 Extraction "c13_model.ml"
-  c13_fixed c13_asis c13_sync c13_sync_rank c13_fixed_order c13_pack c13_calc_publish c13_message
+  c13_fixed c13_asis c13_tree c13_default_numberer c13_param_default_local c13_tuple_insert c13_tuple_view c13_list_insert
+  c13_mod_remove_all c13_mod_repair c13_sync_seq c13_is_synced c13_sync c13_sync_rank c13_fixed_order c13_pack c13_calc_publish c13_message
   c13_obs_of_result c13_proc_of_obs
   c13_sorted_valid_b c13_monotone_b c13_completion_b c13_restore_pre c13_restore_b.
